@@ -1538,6 +1538,96 @@ Section Roundtrip.
   Qed.
 End Roundtrip.
 
+Section C07Chain.
+  Hypothesis H_mnt_select_refines : forall (c : nat) (m : cellmat payload) (ix : index) (dim : nat),
+    rect c m -> dim < 2 ->
+    select payload _ (mnt_kernels payload) (mnt_of_cells c m) ix dim =
+    match py_positions (if dim =? 0 then length m else c) ix with
+    | Some pos => Some (mnt_of_cells (if dim =? 0 then c else length pos) (pick dim pos m))
+    | None => None
+    end.
+  Hypothesis H_met_select_refines : forall (ws : list nat) (m : cellmat payload) (ix : index) (dim : nat),
+    rect_w ws m -> dim < 2 ->
+    select payload _ (met_kernels payload) (met_of_cells ws m) ix dim =
+    match py_positions (if dim =? 0 then length m else length ws) ix with
+    | Some pos => Some (met_of_cells (pick_ws dim pos ws) (pick dim pos m))
+    | None => None
+    end.
+
+  (* ---- a chain of selections is ONE selection of the composed positions of the original rows ---- *)
+  Lemma pick_rows_compose : forall {A} (m : cellmat A) pos pos',
+    Forall (fun i => i < length pos) pos' ->
+    pick_rows pos' (pick_rows pos m) = pick_rows (map (fun i => nth i pos 0) pos') m.
+  Proof.
+    intros A m pos pos' H. unfold pick_rows. rewrite map_map. apply map_ext_in. intros i Hi.
+    rewrite Forall_forall in H. specialize (H i Hi).
+    rewrite (nth_indep _ [] (nth 0 m [])) by (rewrite map_length; exact H).
+    exact (map_nth (fun j => nth j m []) pos 0 i).
+  Qed.
+
+  Lemma ysel_compose : forall (yv : list payload) pos pos',
+    Forall (fun i => i < length pos) pos' ->
+    ysel pos' (ysel pos yv) = ysel (map (fun i => nth i pos 0) pos') yv.
+  Proof.
+    intros yv pos pos' H. unfold ysel. rewrite map_map. apply map_ext_in. intros i Hi.
+    rewrite Forall_forall in H. specialize (H i Hi).
+    rewrite (nth_indep _ None (nth 0 yv None)) by (rewrite map_length; exact H).
+    exact (map_nth (fun j => nth j yv None) pos 0 i).
+  Qed.
+
+  Lemma vsel_compose : forall v pos pos',
+    Forall (fun i => i < length pos) pos' ->
+    vsel pos' (vsel pos v) = vsel (map (fun i => nth i pos 0) pos') v.
+  Proof.
+    intros v pos pos' H. destruct v as [c k m|c m|ws m|d]; cbn [vsel vmap]; try (rewrite pick_rows_compose by exact H; reflexivity).
+    f_equal. rewrite map_map. apply map_ext. intros [kk [c m]]. cbn [fst snd]. rewrite pick_rows_compose by exact H. reflexivity.
+  Qed.
+
+  Lemma chain_positions_bound : forall p n pos, chain_positions n p = Some pos -> Forall (fun i => i < n) pos.
+  Proof.
+    induction p as [|ix rest IH]; intros n pos H; cbn [chain_positions] in H.
+    - injection H as <-. apply Forall_forall. intros i Hi. apply in_seq in Hi. lia.
+    - destruct (py_positions n (as_list_index ix)) as [pos1|] eqn:E; [|discriminate].
+      destruct (chain_positions (length pos1) rest) as [pos'|] eqn:E2; [|discriminate]. injection H as <-.
+      pose proof (py_positions_bound _ _ _ E) as Hb. specialize (IH _ _ E2).
+      apply Forall_map. eapply Forall_impl; [|exact IH]. cbn beta. intros i Hi.
+      rewrite Forall_forall in Hb. apply Hb. apply nth_In. exact Hi.
+  Qed.
+
+  Lemma sel_frame_id : forall n vs nm yy ov, frame_wf n vs yy ov -> sel_frame (seq 0 n) vs nm yy ov = frame_of vs nm yy ov.
+  Proof.
+    intros n vs nm yy ov [Hv [Hy Ho]]. unfold sel_frame. f_equal.
+    - rewrite <- (map_id vs) at 2. apply map_ext_in. intros [s v] Hin. cbn [fst snd].
+      rewrite Forall_forall in Hv. rewrite (vsel_id n v (Hv _ Hin)). reflexivity.
+    - destruct yy as [yv|]; [|reflexivity]. cbn [option_map]. rewrite (ysel_id n yv Hy). reflexivity.
+    - destruct ov as [k|]; [|reflexivity]. cbn [option_map]. rewrite seq_length. congruence.
+  Qed.
+
+  Lemma spec_chain_composes : forall p n vs nm yy ov,
+    frame_wf n vs yy ov ->
+    spec_chain n vs nm yy ov p = option_map (fun pos => sel_frame pos vs nm yy ov) (chain_positions n p).
+  Proof.
+    induction p as [|ix rest IH]; intros n vs nm yy ov Hwf; cbn [spec_chain chain_positions option_map].
+    - rewrite (sel_frame_id n vs nm yy ov Hwf). reflexivity.
+    - destruct (py_positions n (as_list_index ix)) as [pos1|] eqn:E; [|reflexivity].
+      pose proof (py_positions_bound _ _ _ E) as Hb.
+      rewrite (IH (length pos1) _ nm _ _ (frame_wf_sel n vs yy ov pos1 Hwf Hb)).
+      destruct (chain_positions (length pos1) rest) as [pos'|] eqn:E2; [|reflexivity]. cbn [option_map].
+      pose proof (chain_positions_bound _ _ _ E2) as Hb'. f_equal. unfold sel_frame. f_equal.
+      + rewrite map_map. apply map_ext. intros [s v]. cbn [fst snd]. rewrite (vsel_compose v pos1 pos' Hb'). reflexivity.
+      + destruct yy as [yv|]; [|reflexivity]. cbn [option_map]. rewrite (ysel_compose yv pos1 pos' Hb'). reflexivity.
+      + destruct ov; cbn [option_map]; [rewrite map_length|]; reflexivity.
+  Qed.
+
+  Lemma getitem_chain_composes_proof : forall p n vs nm yy ov,
+    frame_wf n vs yy ov -> vs <> [] \/ yy <> None \/ ov <> None ->
+    tf_getitem_chain (frame_of vs nm yy ov) p
+    = option_map (fun pos => sel_frame pos vs nm yy ov) (chain_positions n p).
+  Proof.
+    intros p n vs nm yy ov Hwf Hd. rewrite (getitem_chain_proof H_mnt_select_refines H_met_select_refines p n vs nm yy ov Hwf Hd). apply spec_chain_composes. exact Hwf.
+  Qed.
+End C07Chain.
+
 (* ------------------------------------------------------------------ *)
 (* rejections of torch_frame.cat *)
 From Coq Require Import Permutation.
